@@ -27,6 +27,7 @@ func codecCore(ops *typeOps) {
 	rv := ops.ToRef(pv)
 	ref := refEncodeStruct(ops.St, rv, nil)
 	n := len(ref)
+	vrt.Observe("ref", ref)
 	vrt.SetOwner("buf")
 	buf := vrt.Bytes("buf", n+bufPad)
 	snap := make([]byte, len(buf))
@@ -35,6 +36,7 @@ func codecCore(ops *typeOps) {
 	// ---- size, by pointer and by value (C04), value frozen (C16) ----
 	vrt.SetOwner("impl")
 	vrt.Freeze("user", true)
+	vrt.Phase("encode")
 	sz := EncodedSize(pv)
 	vrt.Check(sz == n, "C04 EncodedSize(ptr) == reference length")
 	szv := EncodedSize(ops.Deref(pv))
@@ -90,8 +92,10 @@ func codecCore(ops *typeOps) {
 		vrt.Reach("short")
 	}
 	vrt.Freeze("user", false)
+	vrt.Observe("enc", buf[:n])
 
 	// ---- decode (C01) ----
+	vrt.Phase("decode")
 	vrt.Freeze("buf", true)
 	pw := ops.New()
 	dst := ops.ToRef(pw)
@@ -104,6 +108,8 @@ func codecCore(ops *typeOps) {
 	vrt.Check(refEqualStruct(ops.St, want, got), "C01 round trip value equal up to documented normalisations")
 	vrt.Check(vrt.BytesEq(buf, append(append([]byte{}, ref...), snap[n:]...)), "C16 decode leaves the input untouched")
 	vrt.Freeze("buf", false)
+	vrt.Observe("reenc", refEncodeStruct(ops.St, got, nil))
+	vrt.Phase("")
 	vrt.Reach("end")
 }
 
